@@ -16,3 +16,10 @@ type Convergen interface {
 	// :@M1@
 	Other(src *Src) (dst *Dst)
 }
+
+// Healthy is a second, well-formed converter interface: a broken sibling interface must fail the
+// run, not be dropped while this one is generated.
+// :convergen
+type Healthy interface {
+	Fine(*Src) *Dst
+}
